@@ -727,6 +727,13 @@ func (pr *prover) condFact(cond ssa.Value, holds bool) {
 		pr.add(y, x, 0)
 	case token.EQL:
 		pr.eq(x, y, 0)
+	case token.NEQ:
+		// integers: x != y together with x >= y gives x >= y+1 (len(b) != 0 => len(b) >= 1)
+		if pr.entails(y, x, 0) {
+			pr.add(y, x, -1)
+		} else if pr.entails(x, y, 0) {
+			pr.add(x, y, -1)
+		}
 	}
 }
 
